@@ -217,7 +217,7 @@ Proof. exact round_away_prerepair_partial. Qed.
 Print Assumptions C01K_round_away_prerepair_partial.
 
 (* ---------------------------------------------------------------- integer_pow, convert_element_type *)
-(* lax.integer_pow on integers — the lowering of /repo since 48bcbc4: repeated Mul (exponent 0 keeps Pow) *)
+(* lax.integer_pow on integers — the lowering of /repo since 48bcbc4 / 22a5583: repeated Mul; exponent 0 is Add(Mul(x, 0), 1) *)
 Theorem C01K_integer_pow_correct : forall sb x n, 0 < snd sb -> in_int sb x ->
   lowered_integer_pow sb x n = jax_integer_pow sb x n.
 Proof. exact integer_pow_correct. Qed.
